@@ -128,8 +128,13 @@ func (s *c03Srv) handle(srv *peer.NTPServer, dg []byte, from netip.AddrPort, rx 
 	if back > 0 {
 		time.Sleep(back / 2) // processing time inside the server (part of t2-t1)
 	}
-	if mode == "stale-first" && s.oldest != nil {
+	if mode == "stale-first" && s.oldest != nil && n%2 == 0 {
 		send(s.oldest)
+	} else if mode == "stale-first" {
+		// a kiss-o'-death packet in front of the genuine reply: it echoes the request's transmit timestamp
+		// but is no time sample (stratum 0, receive and transmit timestamps zero) — seed C03-l
+		kod := peer.NTPFields{LVM: 0x24, Stratum: 0, Poll: f.Poll, Precision: -30, Origin: f.Transmit, RefID: 0x52415445}
+		send(kod.Bytes())
 	}
 	fl := peer.NTPFields{LVM: 0x24, Stratum: 1, Poll: f.Poll, Precision: -30, Origin: f.Transmit, Receive: e.rx64}
 	e.r2 = time.Now()
